@@ -16,8 +16,9 @@ J
 W=$(mktemp -d /tmp/verif-sd-XXXXXX); C=$(mktemp -d /tmp/verif-sd-XXXXXX)
 rsync -a --exclude .git /repo/ "$W/r/"; rsync -a --exclude .git /repo/ "$C/r/"
 patch -s -p1 -d "$W/r" < seeded/$P-$NAME/patch.diff || { echo PATCH-FAILED; exit 2; }
-cp /tmp/seed-$P-demo_test.go "$W/r/$PKG/zz_demo_test.go"; cp /tmp/seed-$P-demo_test.go "$C/r/$PKG/zz_demo_test.go"
-cp /tmp/seed-$P-demo_test.go seeded/$P-$NAME/demo_test.go.txt
+DEMO=${SEED_DEMO:-/tmp/seed-$P-demo_test.go}
+cp "$DEMO" "$W/r/$PKG/zz_demo_test.go"; cp "$DEMO" "$C/r/$PKG/zz_demo_test.go"
+cp "$DEMO" seeded/$P-$NAME/demo_test.go.txt
 run "$W" && dw=PASSES || dw=fails
 run "$C" && dwo=passes || dwo=FAILS
 echo "$P-$NAME demo: with_change=$dw without_change=$dwo"
